@@ -240,6 +240,10 @@ func (d *decoder) Feature(msg *protoscan.Message) (*geojson.Feature, error) {
 }
 
 func (d *decoder) Geometry(geomType vectortile.Tile_GeomType) (orb.Geometry, error) {
+	if d.geom == nil {
+		return nil, errors.New("feature has no geometry")
+	}
+
 	gd := &geomDecoder{iter: d.geom, count: d.geom.Count(protoscan.WireTypeVarint)}
 
 	if gd.count < 2 {
